@@ -309,7 +309,7 @@ func profMain(fs *flag.FlagSet, args []string) error {
 			if len(twice) > 0 {
 				viol.add("select|prof|series-listed-twice", fmt.Sprintf("Series %s lists %v more than once", sel, twice), detail(ext))
 			}
-			if len(samples) < 2 && len(exp) > 0 && len(exp) < len(stored) && len(abs) > 1 {
+			if len(samples) < 2 && len(exp) > 0 && len(exp) < len(stored) && len(abs) > 1 && len(missing)+len(extra)+len(twice) == 0 {
 				samples = append(samples, detail(ext)())
 			}
 			if *extraEvery == 0 || ci%*extraEvery != 0 {
